@@ -375,10 +375,10 @@ Definition dec_content (bs : bytes) : option (content * bytes) :=
       | 0 => omap CEndorsement (dec (c_uint 4) r)
       | 4 => omap (fun p => CActivate (fst p) (snd p)) (dec c_activate r)
       | 17 => omap CFailingNoop (dec c_dyn r)
-      | tag => match dec c_header r with
-               | Some (h, r1) => omap (CManager h) (dec_mop tag r1)
-               | None => None
-               end
+      | _ => match dec c_header r with
+             | Some (h, r1) => omap (CManager h) (dec_mop (Byte.to_N t) r1)
+             | None => None
+             end
       end
   end.
 
